@@ -272,6 +272,23 @@ pub fn main(tier: Tier, replay: Option<serde_json::Value>) -> i32 {
         let label: &[u8] = if p.ops.len() % 2 == 0 { b"" } else { b"e1-label9" };
         e1::pipeline(&prog, &pp, label, (true, true, true)).slim()
     });
+    // ---- (c) the named circuits of C15 (selector values from the compressor's built-in
+    // tables, PI patterns per selector tuple, unused witnesses, ...) on all three routes
+    let named = crate::c15::named_circuits();
+    let named: Vec<&crate::c15::Item> = named.iter().filter(|i| replay_name.as_ref().map_or(true, |n| &i.name == n)).collect();
+    run.bound("named_circuits", json!(named.len()));
+    let nouts = crate::par::par_map(&named, |it| e1::pipeline(&it.prog, &pp, b"c01-named", (true, true, true)).slim());
+    for (it, o) in named.iter().zip(nouts) {
+        match o {
+            Err(e) => run.machinery(format!("harness panic named circuit {}: {}", it.name, e)),
+            Ok(obs) => {
+                layouts.insert(obs.layout);
+                let case = json!({"name": it.name, "constraints": obs.constraints});
+                let class = it.name.split('/').take(2).collect::<Vec<_>>().join("/");
+                judge(&mut run, &it.name, &class, &obs, case);
+            }
+        }
+    }
     for (p, o) in progs.iter().zip(outs) {
         match o {
             Err(e) => run.machinery(format!("harness panic program {}: {}", p.name, e)),
